@@ -49,6 +49,11 @@ pub fn j_series(s: &Series, leap: &LeapTable, out: &mut Local) {
             None => n_items,
         }
     };
+    // ... but only where the statement really contradicts itself: when the formula's count is the LARGER one, its last items
+    // lie at or past the end instant ("nothing is yielded past the end"), so either count is accepted; when it is the
+    // SMALLER one, every item it yields lies before the end and the instants reading would add items with k x step >= end -
+    // start, against "for exactly those k": only the formula's count is right (round 8, C15-r8s3)
+    let n_alt = n_alt.min(n_items);
     let n_max = n_items.max(n_alt);
     if n_items != n_alt && n_max > 1_000_000 {
         // two readings, one of them far too long to step through (a nanosecond step across a leap second): accept the
@@ -369,6 +374,36 @@ pub fn run(rep: &mut Report) {
     let hs = huge_series();
     rep.bound("huge_series", hs.len() as u64);
     sweep(rep, "c15.huge", hs.len() as u64, |i, out| j_series(&hs[i as usize], &leap, out));
+    // millions of items with steps whose sub-second part has odd low-order digits (k x step beyond 2^53 ns with a sub-second
+    // part that an f64 cannot carry), fully iterated and every item judged
+    {
+        let x = 3_823_736_767 * NS;
+        let mut ls: Vec<Series> = vec![];
+        for (step, items) in [(999_999_999i128, if q { 9_100_000i128 } else { 40_000_000 }), (1_123_456_789, if q { 2_000_000 } else { 90_000_000 }), (86_400 * NS + 1, 300_000)] {
+            ls.push(Series { ts: TimeScale::UTC, start: x, end_ts: TimeScale::UTC, span: step * items - 1, step, incl: false });
+        }
+        rep.bound("many_items_series", ls.len() as u64);
+        sweep(rep, "c15.many_items", ls.len() as u64, |i, out| j_series(&ls[i as usize], &leap, out));
+    }
+    // interior scan (round 8): unremarkable starts (+-100 centuries), steps of every magnitude and item counts 0..3000 with the
+    // span -2..+2 ns round a whole number of steps, same-scale and mixed-scale (UTC against the uniform scales)
+    {
+        let nsc: u64 = if q { 6_000 } else { 200_000 };
+        rep.bound("interior_scan_series", nsc);
+        let pairs = [(TimeScale::TAI, TimeScale::TAI), (TimeScale::UTC, TimeScale::UTC), (TimeScale::GPST, TimeScale::TT), (TimeScale::TAI, TimeScale::UTC), (TimeScale::UTC, TimeScale::GPST), (TimeScale::BDT, TimeScale::UTC), (TimeScale::TT, TimeScale::GST), (TimeScale::UTC, TimeScale::TAI)];
+        let lp = &leap;
+        sweep(rep, "c15.scan_series", nsc, |i, out| {
+            let (ts, end_ts) = pairs[(i % 8) as usize];
+            let step = crate::lattice::scan_magnitude(i, 1, 1, 62).abs().max(1);
+            let items = crate::lattice::scan_point(i, 2, 0, 3000);
+            let span = (step * items + [-2i128, -1, 0, 1, 2, step / 2][(i % 6) as usize]).max(0);
+            // mixed pairs start within 1972-2030 every other time (leap seconds inside the span), else anywhere in +-100 centuries
+            let start = if i % 2 == 0 { crate::lattice::scan_point(i, 3, 2_272_060_800 * NS, 4_102_444_800 * NS) } else { crate::lattice::scan_point(i, 4, -100 * NPC, 100 * NPC) };
+            if span < 150 * NPC {
+                j_series(&Series { ts, start, end_ts, span, step, incl: i % 3 == 0 }, lp, out)
+            }
+        });
+    }
     // order independence: sixteen series (same-scale and mixed-scale, starts mirrored about the reference epoch), in
     // every order
     {
